@@ -261,14 +261,41 @@ func (c *RC) preciseSnapsAll(s *Site) []*Snap {
 func ruleBlockStartRef(c *RC) *RuleResult {
 	r := &RuleResult{Rule: "G-BLOCKSTART-REF", Kind: "GUARD+PROV", Doc: "lastBlockTime/lastBlockIndex/lastBlockView are written only with a proposal recorded for the epoch (not on an idle attempt), from Timer.Now() / BlockIndex / ViewNumber"}
 	var sites []*Site
-	for _, loc := range []string{"ctx.lastBlockTime", "ctx.lastBlockIndex", "ctx.lastBlockView"} {
+	locs := []string{"ctx.lastBlockTime", "ctx.lastBlockIndex", "ctx.lastBlockView"}
+	if len(c.writesTo(locs[1])) == 0 && len(c.writesTo(locs[2])) == 0 {
+		// the two epoch fields merged into one struct-valued tag: every write takes the current height and view
+		if tag := c.epochTagField(); tag != nil {
+			locs = locs[:1]
+			loc := "ctx." + tag.Name()
+			for _, s := range c.writesTo(loc) {
+				sites = append(sites, s)
+				r.Sites++
+				as, _ := s.Node.(*ast.AssignStmt)
+				okv := false
+				if as != nil && len(as.Lhs) == len(as.Rhs) {
+					for i, l := range as.Lhs {
+						if sel, isSel := ast.Unparen(l).(*ast.SelectorExpr); isSel && sel.Sel.Name == tag.Name() {
+							h, v := c.epochMentions(s.Fn.Pkg.TypesInfo, as.Rhs[i], 0)
+							okv = c.epochOnly(s.Fn.Pkg.TypesInfo, as.Rhs[i], 0) && h && v
+						}
+					}
+				}
+				if okv {
+					r.ok(s.Fn.Name + ": " + loc + " ← the current height and view")
+				} else {
+					r.fail(s.Fn.Name+"/value:"+loc, c.Prog.Pos(s.Node), loc+" (the epoch tag of the timer reference) is written with something other than the current height and view")
+				}
+			}
+		}
+	}
+	for _, loc := range locs {
 		ws := c.writesTo(loc)
 		if len(ws) == 0 {
 			r.unresolved("write of " + loc)
 		}
 		for _, s := range ws {
 			sites = append(sites, s)
-			for _, sn := range s.Snaps {
+			for _, sn := range c.preciseSnapsAll(s) {
 				r.Sites++
 				want := map[string]string{"ctx.lastBlockIndex": "ctx.BlockIndex", "ctx.lastBlockView": "ctx.ViewNumber"}[loc]
 				switch {
